@@ -10,7 +10,7 @@ import (
 )
 
 // TestFaultsAfterPlaintextExists fails, in turn, every metastore/KMS call, every AEAD
-// call and every secret allocation of an encrypt and of a decrypt in the cold, warm
+// call, every secret allocation and every open / re-protect of a key secret of an encrypt and of a decrypt in the cold, warm
 // and rotating scenarios, and then inspects the retained buffers.
 func TestFaultsAfterPlaintextExists(t *testing.T) {
 	kit.Check(t, 120, 1600, func(t *rapid.T) {
@@ -25,7 +25,7 @@ func TestFaultsAfterPlaintextExists(t *testing.T) {
 			c.Faults = faults
 			return &c
 		}
-		seq, aeadN, allocN := runChecked(t, clone(), op)
+		seq, aeadN, allocN, readsN := runChecked(t, clone(), op)
 		for i, c := range seq {
 			for _, k := range world.ApplicableFaults(c) {
 				runChecked(t, clone(world.FaultAt{Target: "ext", Rel: i, Kind: k}), op)
@@ -37,10 +37,16 @@ func TestFaultsAfterPlaintextExists(t *testing.T) {
 		for i := 0; i < allocN; i++ {
 			runChecked(t, clone(world.FaultAt{Target: "alloc", Rel: i}), op)
 		}
+		// a key secret cannot be made readable, or cannot be made inaccessible again after its
+		// callback ran (the accessor then returns the callback's result together with an error)
+		for i := 0; i < readsN; i++ {
+			runChecked(t, clone(world.FaultAt{Target: "sec-open", Rel: i}), op)
+			runChecked(t, clone(world.FaultAt{Target: "sec-release", Rel: i}), op)
+		}
 	})
 }
 
-func runChecked(t *rapid.T, sc *world.FaultScenario, op string) ([]kit.Call, int, int) {
+func runChecked(t *rapid.T, sc *world.FaultScenario, op string) ([]kit.Call, int, int, int) {
 	var c *checker
 	ev := sc.Exec(t, func(sc *world.FaultScenario) *world.Event {
 		// buffers handed out during setup were checked by the fault-free histories; start after them
@@ -68,5 +74,5 @@ func runChecked(t *rapid.T, sc *world.FaultScenario, op string) ([]kit.Call, int
 	if len(sc.Faults) > 0 {
 		kit.Rec.Label("fault:" + sc.Faults[0].Target + ":" + outcome)
 	}
-	return sc.OpCalls(), w.AEAD.Len() - sc.ABase, w.Secrets.Count() - sc.SBase
+	return sc.OpCalls(), w.AEAD.Len() - sc.ABase, w.Secrets.Count() - sc.SBase, w.Secrets.Reads() - sc.RBase
 }
